@@ -46,6 +46,12 @@ def demo_info(d):
     if not run:
         m = re.search(r"(go test [^\n]*)", txt)
         run = m.group(1) if m else None
+    # builders sometimes write the paths of their own scratch worktree
+    if path:
+        path = re.sub(r"^/tmp/sm\d*-C\d+/", "", path)
+    if run:
+        run = re.sub(r"/tmp/sm\d*-C\d+/", "", run)
+        run = re.sub(r"cd /tmp/sm\d*-C\d+\s*&&\s*", "", run)
     return meta, path, run
 
 
